@@ -47,6 +47,7 @@ class BdqExchange:
         self.plan = None
         self.calls = []
         self.username = "daq"
+        self.on_call = None        # driver hook: called after the exchange applied the request, before the answer travels back
 
     # --- exchange-side changes
     def _bump(self, o):
@@ -89,10 +90,16 @@ class BdqExchange:
         self.calls.append(rec)
         return plan, rec
 
+    def _failed(self, rec):
+        rec["answer"] = {}
+        if self.on_call:
+            self.on_call(rec)
+
     def place_orders(self, order_list, **kw):
         plan, rec = self._enter("PLACE", len(order_list))
         oc = plan.get("oc", "answer")
         if oc == "raise":
+            self._failed(rec)
             raise BetdaqError("injected")
         out = []
         for ins in order_list:
@@ -105,6 +112,10 @@ class BdqExchange:
             else:
                 out.append({"order_id": None, "side": None, "size_remaining": 0.0, "matched_price": 0.0, "matched_size": 0.0, "matched_lay_size": 0.0, "sent_time": None,
                             "status": None, "runner_sequence_number": None, "runner_id": ins["SelectionId"], "customer_reference": ins["PunterReferenceNumber"], "return_code": code})
+        rec["answer"] = {"codes": {str(r["customer_reference"]): (r["return_code"] or 0) for r in out} if oc == "answer" else {}, "reported": [],
+                         "applied": [str(r["customer_reference"]) for r in out if r["order_id"] is not None]}
+        if self.on_call:
+            self.on_call(rec)
         if oc == "raise_applied":
             raise BetdaqError("injected after the exchange applied the request")
         return out
@@ -113,12 +124,19 @@ class BdqExchange:
         plan, rec = self._enter("CANCEL", len(order_ids))
         oc = plan.get("oc", "answer")
         if oc == "raise":
+            self._failed(rec)
             raise BetdaqError("injected")
         out = []
+        applied = []
         for oid in order_ids:
             c = self.cancel(oid)
+            if c is not None:
+                applied.append(oid)
             if c is not None and oid not in (plan.get("missing_ids") or []):
                 out.append({"order_id": oid, "size_cancelled": c, "customer_reference": self.orders[oid]["ref"]})
+        rec["answer"] = {"codes": {}, "reported_ids": [r["order_id"] for r in out] if oc == "answer" else [], "applied_ids": applied}
+        if self.on_call:
+            self.on_call(rec)
         if oc == "raise_applied":
             raise BetdaqError("injected after the exchange applied the request")
         return out
@@ -127,8 +145,10 @@ class BdqExchange:
         plan, rec = self._enter("UPDATE", len(order_list))
         oc = plan.get("oc", "answer")
         if oc == "raise":
+            self._failed(rec)
             raise BetdaqError("injected")
         out = []
+        applied = []
         for ins in order_list:
             oid = ins["BetId"]
             o = self.orders.get(oid)
@@ -138,7 +158,11 @@ class BdqExchange:
             if code == 0 or (oc == "raise_applied" and o is not None and o["status"] == "Unmatched"):
                 o["price"] = float(ins["Price"])
                 self._bump(o)
+                applied.append(oid)
             out.append({"order_id": oid, "return_code": code})
+        rec["answer"] = {"codes_by_id": {r["order_id"]: r["return_code"] for r in out} if oc == "answer" else {}, "applied_ids": applied}
+        if self.on_call:
+            self.on_call(rec)
         if oc == "raise_applied":
             raise BetdaqError("injected after the exchange applied the request")
         return out
@@ -167,6 +191,7 @@ class BdqRun:
         self.patches = Patches()
         self.hq = []               # polled lists waiting for the main loop
         self.polled = 0
+        self.wire = []             # the call the exchange has answered and whose response is not yet handled
         self.client = clients.BetdaqClient(self.x)
         self.fl = Flumine(self.client)
         self.pool = DetPool()
@@ -216,6 +241,7 @@ class BdqRun:
             xl[self.lab_of_ref(xo["ref"])] = {"status": xo["status"], "m": pence(xo["m"]), "rem": pence(xo["rem"]), "seq": xo["seq"], "price": pence(xo["price"])}
         return {"ord": {l: self.proj_order(o) for l, o in self.orders.items()}, "x": xl, "xseq": self.x.seq,
                 "pool": [{"kind": KIND_NAME[a[0].package_type], "orders": [self.label_order(o) for o in a[0]._orders]} for (fn, a, kw) in self.pool.thunks],
+                "wire": list(self.wire),
                 "hq": [[{"o": self.lab_of_ref(c["customer_reference"]), "status": c["status"], "m": pence(c["matched_size"]), "rem": pence(c["remaining_size"]),
                          "seq": c["sequence_number"], "price": pence(c["price"])} for c in lst] for lst in self.hq],
                 "polled": self.polled}
@@ -275,8 +301,17 @@ class BdqRun:
                     one(t, a)
         self.step("req", txn=bool(s.get("txn")))
 
+    def lab_of_id(self, oid):
+        for xo in self.x.orders.values():
+            if xo["id"] == oid:
+                return self.lab_of_ref(xo["ref"])
+        return "?%s" % oid
+
     def run_thunk(self, s):
-        if not self.pool.thunks:
+        """the head of the execution queue: `call` (recorded inside the double, after the exchange applied the request),
+        the steps listed under "during" (main thread, while the answer travels), `resp` (BetdaqExecution handles it);
+        `nobuild` when the request could not be built and nothing was sent"""
+        if not self.pool.thunks or self.wire:
             return
         fn, args, kw = self.pool.thunks.pop(0)
         pkg = args[0]
@@ -285,11 +320,30 @@ class BdqRun:
         oc = s.get("oc", "answer")
         codes = {l: int((s.get("codes") or {}).get(l, 0)) for l in labs}
         missing = [l for l in (s.get("missing") or []) if l in labs]
-        pre = {l: self.proj_order(self.orders[l]) for l in labs}
+        sent = [l for l in labs if self.orders[l].status.value != "Violation"]
         self.x.plan = {"oc": oc, "codes": {str(int(self.orders[l].id)): c for l, c in codes.items()},
                        "codes_by_id": {self.orders[l].bet_id: c for l, c in codes.items() if self.orders[l].bet_id is not None},
                        "missing_ids": [self.orders[l].bet_id for l in missing]}
-        ncalls0 = len(self.x.calls)
+        called = []
+
+        def on_call(rec):
+            ans = rec.get("answer") or {}
+            by_ref = {str(int(self.orders[l].id)): l for l in sent}
+            wcodes = {l: 0 for l in sent}
+            if kind == "PLACE":
+                wcodes.update({by_ref[r]: c for r, c in (ans.get("codes") or {}).items() if r in by_ref})
+                applied = [by_ref[r] for r in ans.get("applied", []) if r in by_ref]
+            else:
+                wcodes.update({self.lab_of_id(i): c for i, c in (ans.get("codes_by_id") or {}).items()})
+                applied = [self.lab_of_id(i) for i in ans.get("applied_ids", [])]
+            reported = [self.lab_of_id(i) for i in ans.get("reported_ids", [])]
+            self.wire = [{"kind": kind, "orders": sent, "oc": oc, "codes": {l: wcodes[l] for l in sent}, "reported": [l for l in sent if l in reported],
+                          "applied": [l for l in sent if l in applied]}]
+            called.append(1)
+            self.step("call", kind=kind, oc=oc, codes={l: codes[l] for l in sent}, missing=[l for l in missing if l in sent])
+            for sub in s.get("during") or []:
+                self.do(sub)
+        self.x.on_call = on_call
         err = ""
         try:
             fn(*args, **kw)
@@ -297,43 +351,48 @@ class BdqRun:
             err = "%s: %s" % (type(e).__name__, str(e)[:100])
             self.errors.append(err)
         self.x.plan = None
-        self.step("run", kind=kind, orders=labs, oc=oc, codes=codes, missing=missing, pre=pre, err=err, called=len(self.x.calls) > ncalls0)
+        self.x.on_call = None
+        self.wire = []
+        self.step("resp" if called else "nobuild", kind=kind, orders=labs, err=err, n=0)
+
+    def do(self, s):
+        op = s["op"]
+        if op in ("req", "reqtxn"):
+            self.requests(dict(s, txn=(op == "reqtxn") or s.get("txn")))
+        elif op == "run":
+            self.run_thunk(s)
+        elif op in ("xfill", "xcancel"):
+            o = self.orders.get(s["o"])
+            oid = o.bet_id if o is not None and o.bet_id is not None else next((xo["id"] for xo in self.x.orders.values() if o is not None and xo["ref"] == int(o.id)), None)
+            if op == "xfill":
+                self.x.fill(oid, s.get("amount", 1.0))
+                self.step("xfill", o=s["o"], amount=pence(s.get("amount", 1.0)))
+            else:
+                self.x.cancel(oid)
+                self.step("xcancel", o=s["o"])
+        elif op == "snap":
+            diff = self.x.changed_since(self.polled)
+            if diff:        # (an empty list is queued only while orders are live, and changes nothing)
+                self.hq.append(diff)
+                self.polled = max(c["sequence_number"] for c in diff)
+            self.step("snap", n=len(diff))
+        elif op == "proc":
+            if self.hq:
+                lst = self.hq.pop(0)
+                try:
+                    self.fl._process_current_orders(fevents.CurrentOrdersEvent(lst, exchange=ExchangeType.BETDAQ))
+                except Exception as e:
+                    self.errors.append("escaped _process_current_orders %s: %s" % (type(e).__name__, str(e)[:100]))
+                self.step("proc", n=len(lst))
+            else:
+                self.step("proc", n=0)
 
     def run(self):
         self.instrument()
         try:
             self.step("init")
             for s in self.scn["steps"]:
-                op = s["op"]
-                if op in ("req", "reqtxn"):
-                    self.requests(dict(s, txn=(op == "reqtxn") or s.get("txn")))
-                elif op == "run":
-                    self.run_thunk(s)
-                elif op in ("xfill", "xcancel"):
-                    o = self.orders.get(s["o"])
-                    oid = o.bet_id if o is not None and o.bet_id is not None else next((xo["id"] for xo in self.x.orders.values() if o is not None and xo["ref"] == int(o.id)), None)
-                    if op == "xfill":
-                        self.x.fill(oid, s.get("amount", 1.0))
-                        self.step("xfill", o=s["o"], amount=pence(s.get("amount", 1.0)))
-                    else:
-                        self.x.cancel(oid)
-                        self.step("xcancel", o=s["o"])
-                elif op == "snap":
-                    diff = self.x.changed_since(self.polled)
-                    if diff:        # (an empty list is queued only while orders are live, and changes nothing)
-                        self.hq.append(diff)
-                        self.polled = max(c["sequence_number"] for c in diff)
-                    self.step("snap", n=len(diff))
-                elif op == "proc":
-                    if self.hq:
-                        lst = self.hq.pop(0)
-                        try:
-                            self.fl._process_current_orders(fevents.CurrentOrdersEvent(lst, exchange=ExchangeType.BETDAQ))
-                        except Exception as e:
-                            self.errors.append("escaped _process_current_orders %s: %s" % (type(e).__name__, str(e)[:100]))
-                        self.step("proc", n=len(lst))
-                    else:
-                        self.step("proc", n=0)
+                self.do(s)
         finally:
             self.patches.restore()
         return {"id": self.scn["id"], "steps": self.steps, "errors": self.errors, "calls": self.x.calls}
